@@ -143,6 +143,8 @@ def compare_traces(ra, rb, props, oracle, world_a, client=None, compare_draws=Tr
             sp = (ra.world.op_specs or {}).get(rr_.get("op"), {})
             if any(isinstance(v, float) and 0 < abs(v) < 3e-5 for v in sp.values()):
                 tol = tol + 2e-6
+        if rr_ is not None and rr_["do"].endswith(".contract") and float(rr_.get("tol") or 0.0) > 1e-6:
+            tol = max(tol, 2.0 * float(rr_["tol"]))  # the caller's own contraction tolerance
         if sid not in ia or sid not in ib:
             continue
         ka, kb = ia[sid], ib[sid]
